@@ -254,6 +254,7 @@ func c15Run(c *core.Ctx) {
 	}
 	c15Children(c)
 	c15Never(c)
+	c15NeverChildren(c)
 }
 
 // ---- waiting for child processes: cancellation at every scheduling point ----
@@ -265,6 +266,9 @@ var c15ChildProgs = []c15Prog{
 	{"system-in-func-loop", `function f() { return system("sleep") } BEGIN { for (i = 0; i < 3000; i++) { if (i < 3) { print "iter", i; f() } } print "after" }`, ""},
 	{"end-system", `END { print "end"; system("sleep"); for (i = 0; i < 4000; i++) s += i; print "after" }`, "x\n"},
 	{"short-tail", `BEGIN { print "before"; r = system("sleep"); print "after" }`, ""},
+	// the killed shell leaves a descendant that keeps the output pipe open: the wait must still end
+	{"system-orphan", `BEGIN { print "before"; r = system("sleep-orphan"); for (i = 0; i < 4000; i++) s += i; print "after", r }`, ""},
+	{"pipe-orphan-close", `BEGIN { print "before"; print "data" | "sleep-orphan"; r = close("sleep-orphan"); for (i = 0; i < 4000; i++) s += i; print "after", r }`, ""},
 }
 
 type c15ChildObs struct {
@@ -392,6 +396,85 @@ func c15Never(c *core.Ctx) {
 	}
 }
 
+// ---- never cancelled, with child processes (virtual world, default schedule) ----
+
+var c15NeverChildProgs = []c15Prog{
+	{"system-emit", `BEGIN { print "a"; r = system("emit:xy"); print "b", r }`, ""},
+	{"system-exit", `BEGIN { r = system("exit:3"); print r }`, ""},
+	{"system-orphan", `BEGIN { print "a"; r = system("orphan"); print "b", r }`, ""},
+	{"pipe-cat-close", `BEGIN { print "d1" | "cat"; print "d2" | "cat"; r = close("cat"); print "c", r }`, ""},
+	{"pipe-orphan-close", `BEGIN { print "d" | "orphan"; r = close("orphan"); print "c", r }`, ""},
+	{"pipe-cat-unclosed", `BEGIN { print "d" | "cat"; print "e" }`, ""},
+	{"cmd-getline", `BEGIN { while (("emit:l1\nl2\n" | getline v) > 0) print "g", v; print close("emit:l1\nl2\n") }`, ""},
+	{"cmd-getline-fail", `BEGIN { r = ("fail-start" | getline v); print r; r = system("fail-start"); print r }`, ""},
+	{"end-system", `END { r = system("emit:z"); print NR, r }`, "x\ny\n"},
+}
+
+type c15NeverObs struct {
+	out, errOut string
+	status      int
+	err         string
+	dead        bool
+	events      string
+}
+
+func c15NeverChildRun(p c15Prog, prog *parser.Program, useCtx bool) c15NeverObs {
+	s := sched.New(sched.NewChooser(nil))
+	s.Horizon = 20000
+	w := vworld.New(s)
+	w.Install()
+	defer w.Uninstall()
+	var o c15NeverObs
+	var out, errb bytes.Buffer
+	s.Spawn("main", func() {
+		it, _ := interp.New(prog)
+		cfg := &interp.Config{Stdin: strings.NewReader(p.Input), Output: &out, Error: &errb, Environ: []string{}, ShellCommand: []string{"sh", "-c"}}
+		var err error
+		if useCtx {
+			ctx, cancel := context.WithCancel(context.WithValue(context.Background(), c15Key{}, 1))
+			defer cancel()
+			o.status, err = it.ExecuteContext(ctx, cfg)
+		} else {
+			o.status, err = it.Execute(cfg)
+		}
+		if err != nil {
+			o.err = err.Error()
+		}
+	})
+	s.Run()
+	o.out, o.errOut = out.String(), errb.String()
+	o.dead = s.Deadlock || s.Overrun
+	var ev []string
+	for _, e := range w.Events {
+		if !strings.HasPrefix(e, "kill ") { // the context watcher's bookkeeping is not an observation
+			ev = append(ev, e)
+		}
+	}
+	o.events = strings.Join(ev, "; ")
+	return o
+}
+
+type c15Key struct{}
+
+func c15NeverChildren(c *core.Ctx) {
+	for _, p := range c15NeverChildProgs {
+		if !c.Mine() {
+			continue
+		}
+		prog := awk.MustParse(p.Src, nil)
+		a := c15NeverChildRun(p, prog, false)
+		b := c15NeverChildRun(p, prog, true)
+		c.Eval(2)
+		c.Add("transitions", 2)
+		c.Add("states", 1)
+		c.Outcome("never-child " + p.Name + a.out)
+		if a != b {
+			c.Fail("never-cancelled-differs:child:prog="+p.Name, c15Case{Kind: "never-child", Prog: p.Name, Src: p.Src},
+				fmt.Sprintf("Execute: %+v || ExecuteContext (never cancelled): %+v", a, b))
+		}
+	}
+}
+
 func c15RunCtx(prog *parser.Program, input string, dir string, uf bool) implObs {
 	// same as runImpl but through ExecuteContext with a context that is never cancelled
 	saved := awk.ExecHook
@@ -414,6 +497,15 @@ func c15Replay(c *core.Ctx, raw json.RawMessage) {
 		panic(err)
 	}
 	switch cs.Kind {
+	case "never-child":
+		for _, p := range c15NeverChildProgs {
+			if p.Name == cs.Prog {
+				prog := awk.MustParse(p.Src, nil)
+				if a, b := c15NeverChildRun(p, prog, false), c15NeverChildRun(p, prog, true); a != b {
+					c.Fail("never-cancelled-differs:child:prog="+p.Name, cs, fmt.Sprintf("Execute: %+v || ExecuteContext (never cancelled): %+v", a, b))
+				}
+			}
+		}
 	case "step":
 		for _, p := range c15Progs {
 			if p.Name == cs.Prog {
@@ -454,13 +546,13 @@ func init() {
 		ID:    "C15",
 		Level: "model_checking",
 		Rule: "deviation-bounded environment exploration: for 19 programs (tight loop, nested calls, recursion, for-in, main-loop rules, END loop, pending printf output, getline loop, exit after loops, runtime error in BEGIN / function / rule / END / for-in body) the context is cancelled before VM step k for every k<=300 + every 7th k<=3000 + every 61st up to the end (thorough: every k<=3000 + every 7th), with unbuffered and bufio-wrapped output, plus pre-cancelled and expired contexts; " +
-			"for 5 programs waiting on child processes (system, cmd|getline, print|cmd+close, inside a function/loop, in END) every placement of the cancel among the scheduling points of the virtual process world up to 2 (thorough 3) deviations; never-cancelled ExecuteContext vs Execute on the C01 misc/builtins/calls/control program space; " +
+			"for 8 programs waiting on child processes (system, cmd|getline, print|cmd+close, inside a function/loop, in END, a killed shell whose descendant keeps the output pipe open) every placement of the cancel among the scheduling points of the virtual process world up to 2 (thorough 3) deviations; never-cancelled ExecuteContext vs Execute on the C01 misc/builtins/calls/control program space and on 9 programs with child processes in the virtual world; " +
 			"state = one program, transition = one execution; distinct = distinct (program, steps-after-cancel bucket, result)",
 		Assumptions: []string{
 			"alarm threshold for 'a fixed small number (about a thousand)' of further steps is 1500 (the code polls every 1000 instructions); the measured maximum is reported as note_max_steps_after_cancel",
 			"a run that ends with a non-context error after the cancellation is a violation (the context's error is preferred over secondary errors); only an error-free normal end within the step allowance is accepted in place of the context's error",
 			"a VM step = one iteration of the dispatch loop (hook spliced in by the overlay)",
-			"child processes are the vexec model; CommandContext kills the child when the context is done; WaitDelay is not modelled",
+			"child processes are the vexec model; CommandContext kills the child when the context is done; WaitDelay is modelled without a clock: it expires exactly when the process has exited and a descendant still holds its output pipe (scripts orphan / sleep-orphan), without it Wait blocks as long as the pipe is held",
 		},
 		Run:    c15Run,
 		Replay: c15Replay,
